@@ -25,7 +25,8 @@ import (
 	"verifharness/q2lib"
 )
 
-var contentWords = []string{"foo", "Foo", "FOO", "bar", "Bar", "baz", "main", "Main", "test", "x_y", "a.b", "qux", "foobar", "FooBar", "say \"hi\"", "call(x)", "a+b", "end."}
+var contentWords = []string{"foo", "Foo", "FOO", "bar", "Bar", "baz", "main", "Main", "test", "x_y", "a.b", "qux", "foobar", "FooBar", "say \"hi\"", "call(x)", "a+b", "end.",
+	"OR", "or", "and", "AND", "Not", "File:main", "bAr", "mAin"}
 var fileNames = []string{"main.go", "Main.java", "README.md", "src/bar_test.py", "lib/Baz.go", "foo.txt", "docs/Foo.md", "x_y.py", "cmd/qux/main.go"}
 var repoNames = []string{"github.com/org/alpha", "github.com/org/beta", "gitlab.com/foo/gamma", "example.com/bar/delta-go", "github.com/Foo/Upper"}
 var langOf = map[string]string{".go": "Go", ".java": "Java", ".md": "Markdown", ".py": "Python", ".txt": ""}
@@ -85,7 +86,47 @@ func genCorpus(r *gen.Rand) []q2lib.Repo {
 	return repos
 }
 
-func vocabOf(repos []q2lib.Repo) *q2lib.Vocab {
+// casePatterns: patterns for a content word in which one letter is written as a class, a range or an alternation, in
+// lower case, upper case or both — so that atoms whose capitals sit only in a character class (or in nothing but a
+// literal, or nowhere) all occur routinely, for every base word the corpus has in several spellings.
+func casePatterns(r *gen.Rand, n int) []string {
+	bases := []string{"foo", "bar", "baz", "main", "qux", "foobar", "test"}
+	var out []string
+	for len(out) < n {
+		w := gen.Pick(r, bases)
+		i := r.Intn(len(w))
+		lo := string(w[i])
+		up := strings.ToUpper(lo)
+		other := gen.Pick(r, []string{"x", "z", "q"})
+		var mid string
+		switch r.Intn(10) {
+		case 0:
+			mid = "[" + up + strings.ToUpper(other) + "]" // capitals only, in a class
+		case 1:
+			mid = "[A-Z]"
+		case 2:
+			mid = "(" + up + "|" + strings.ToUpper(other) + ")" // folded into a class by the simplifier
+		case 3:
+			mid = "[" + lo + up + "]"
+		case 4:
+			mid = "[" + lo + other + "]"
+		case 5:
+			mid = "[a-z]"
+		case 6:
+			mid = "(" + lo + "|" + other + ")"
+		case 7:
+			mid = "[" + up + "]" // a one-letter class is a literal
+		case 8:
+			mid = up
+		default:
+			mid = "[" + up + "-" + up + lo + "]"
+		}
+		out = append(out, w[:i]+mid+w[i+1:])
+	}
+	return out
+}
+
+func vocabOf(r *gen.Rand, repos []q2lib.Repo) *q2lib.Vocab {
 	v := &q2lib.Vocab{
 		Words: []string{"foo", "Foo", "FOO", "bar", "Bar", "baz", "main", "Main", "test", "x_y", "a\\.b", "qux", "fo+", "[fF]oo", "foo|bar", "ba.", "\\w+_y", "Fo.*r",
 			"foobar", "oba", "nomatch", "(foo|qux)bar", "ba[rz]", "call\\(x\\)", "a\\+b", "end\\.", "x.y", "\\(x", "hi", "Ma?in", "FOO|baz", "\\S+_y", "\\Wx\\W", "ba\\D", "(?i)foo", "(?i)Bar"},
@@ -96,8 +137,12 @@ func vocabOf(repos []q2lib.Repo) *q2lib.Vocab {
 		Langs:     []string{"go", "Go", "python", "Python", "java", "markdown", "nosuchlang", "golang", "py"},
 		MetaNames: []string{"license", "team", "absent"},
 		MetaVals:  []string{"Apache-.*", "MIT", "^GPL", "search", "infra|search", ".*"},
-		Syms:      []string{"foo", "Foo", "bar", "main", "qux", "ba.", "FooBar", "test"},
+		Syms:      []string{"foo", "Foo", "bar", "main", "qux", "ba.", "FooBar", "test", "[FX]oo", "(B|X)ar", "[a-z]ain"},
 	}
+	// patterns whose capitals sit in classes / alternations, and bare words that look like keywords
+	v.Words = append(v.Words, casePatterns(r, 14)...)
+	v.Words = append(v.Words, "OR", "Or", "AND", "and", "not", "NOT", "or", "File:main", "CASE:yes", "Type:repo", "bAr", "mAin")
+	v.Files = append(v.Files, "[MX]ain", "(R|X)EADME", "[a-z]ain", "READ[A-Z]E")
 	return v
 }
 
@@ -114,6 +159,9 @@ var tBuild, tOpen, tClose time.Duration
 // how many generated trees satisfy the decidable hypotheses of the Lean theorem C06_parse_sem_partial_wf
 var coveredCases int
 var uncovered = map[string]int{}
+
+// shapes of atoms that decide case:auto / keyword recognition (distribution counters)
+var atomShapes = map[string]int{}
 
 func newRunner(repos []q2lib.Repo) *runner {
 	dir, err := os.MkdirTemp(os.Getenv("VERIF_WORK"), "c06idx")
@@ -146,7 +194,7 @@ func (rn *runner) close() {
 }
 
 // search: the documents the implementation selects for the string s ("err" = rejected by the parser).
-func (rn *runner) search(s string) (impl string, tree string) {
+func (rn *runner) search(s string) (impl string, tree string, canon string) {
 	defer func() {
 		if r := recover(); r != nil {
 			impl = "crash"
@@ -154,15 +202,16 @@ func (rn *runner) search(s string) (impl string, tree string) {
 	}()
 	q, err := query.Parse(s)
 	if err != nil {
-		return "err", ""
+		return "err", "", ""
 	}
 	tree = q.String()
+	canon = q2lib.Canon(q)
 	res, err := rn.sharded.Search(context.Background(), q, &zoekt.SearchOptions{})
 	if err != nil {
-		return "searcherr", tree
+		return "searcherr", tree, canon
 	}
 	if res.Stats.Crashes > 0 {
-		return "crash", tree
+		return "crash", tree, canon
 	}
 	hit := map[string]bool{}
 	for _, f := range res.Files {
@@ -177,17 +226,22 @@ func (rn *runner) search(s string) (impl string, tree string) {
 		}
 	}
 	if n != len(hit) {
-		return "unknownfile", tree
+		return "unknownfile", tree, canon
 	}
-	return q2lib.Bits(bits), tree
+	return q2lib.Bits(bits), tree, canon
 }
 
 func (rn *runner) runCase(g q2lib.Qy) gen.Case {
 	s := g.Render()
-	impl, tree := rn.search(s)
+	impl, tree, canon := rn.search(s)
 	rows, _ := q2lib.TruthRows(g, rn.docs)
 	in := fmt.Sprintf("sem %s %s %s %s %s", g.Encode(), gen.Hex([]byte(s)), q2lib.OracleTable(q2lib.CollectTexts([]byte(s))), gen.NatList(rn.repoOf), rows)
+	// what is compared with the model: the selected documents AND the canonical parsed tree (so that a deviation of
+	// the parse that this corpus happens not to expose — a case flag, a field — is still a disagreement)
 	c := gen.Case{In: in, Impl: impl}
+	if canon != "" && strings.Trim(impl, "01-") == "" {
+		c.Impl = impl + " T=" + canon
+	}
 	want, ok := q2lib.Sem(g, rn.docs)
 	feats := g.Features()
 	var fl []string
@@ -218,6 +272,9 @@ func (rn *runner) runCase(g q2lib.Qy) gen.Case {
 		}
 	default:
 		c.Go = "ok"
+	}
+	for _, f := range q2lib.AtomShapes(g) {
+		atomShapes[f]++
 	}
 	if cov, why := q2lib.Covered(g); cov {
 		coveredCases++
@@ -295,7 +352,7 @@ func main() {
 	for k := 0; k < nCorpora; k++ {
 		repos := genCorpus(r)
 		rn := newRunner(repos)
-		v := vocabOf(repos)
+		v := vocabOf(r, repos)
 		for i := 0; i < perCorpus; i++ {
 			g := q2lib.GenQuery(r, v, q2lib.GenOpts{MaxDepth: 2, TightGroup: i%25 == 0}, 0)
 			c := rn.runCase(g)
@@ -306,6 +363,9 @@ func main() {
 			}
 		}
 		rn.close()
+	}
+	for k, n := range atomShapes {
+		w.Count("atom-shape:"+k, n)
 	}
 	w.Count("covered-by-C06_parse_sem_partial", coveredCases)
 	for why, n := range uncovered {
